@@ -205,6 +205,18 @@ func checkC13(c OriginCase, o *Obs) error {
 	if c.HasOrigin {
 		h["Origin"] = []string{c.Origin}
 	}
+	// headers a client is free to send and that say nothing about the origin:
+	// forwarding headers naming the Origin's host (only a trusted reverse proxy
+	// may set them; the default policy compares Origin with Host)
+	fwd := ""
+	if oh, _ := wsref.OriginHostPort(c.Origin); c.HasOrigin && oh != "" && len(c.Origin)%2 == 0 && !strings.ContainsAny(oh, "\r\n\x00 ") {
+		h["X-Forwarded-Host"] = []string{oh}
+		h["Forwarded"] = []string{"host=" + oh + ";proto=https"}
+		h["X-Forwarded-Proto"] = []string{"https"}
+		h["X-Original-Host"] = []string{oh}
+		fwd = "X-Forwarded-Host: " + oh + "\r\nForwarded: host=" + oh + ";proto=https\r\nX-Forwarded-Proto: https\r\nX-Original-Host: " + oh + "\r\n"
+		o.Class("forwarding_headers_name_the_origin_host")
+	}
 	direct := &http.Request{Method: "GET", URL: &url.URL{Path: "/"}, Proto: "HTTP/1.1", ProtoMajor: 1, ProtoMinor: 1, Header: h, Host: c.Host}
 	if err := judge("direct", direct); err != nil {
 		return err
@@ -214,7 +226,7 @@ func checkC13(c OriginCase, o *Obs) error {
 	if c.HasOrigin {
 		raw += "Origin: " + c.Origin + "\r\n"
 	}
-	raw += "\r\n"
+	raw += fwd + "\r\n"
 	if pr, err := http.ReadRequest(bufio.NewReader(strings.NewReader(raw))); err == nil && pr.Host == c.Host && (!c.HasOrigin || (len(pr.Header["Origin"]) == 1 && pr.Header["Origin"][0] == c.Origin)) {
 		o.Class("via_net_http")
 		if err := judge("net/http", pr); err != nil {
